@@ -258,7 +258,7 @@ def op_cases(rng, n, maxcmds=7):
             elif k < 9:
                 op = rng.pick([b"d", b"d", b"y"])
                 c2 = rng.pick([b"", b"", b"", b"2", b"3"])
-                m = rng.pick(movers + [b"f", b"F", b"t", b"T", b"f", b"F"] + [op])
+                m = rng.pick(movers + [b"f", b"F", b"t", b"T", b"f", b"F", b";", b",", b";"] + [op])
                 if m in (b"f", b"F", b"t", b"T"): m += rng.pick(common)
                 parts.append(r + c + op + c2 + m)
             elif k < 11:
